@@ -238,3 +238,74 @@ func VerifC02AfterModeChange() {
 	rt.Check(len(x.pgnos) == 1 && x.pgnos[0] == 1 && verifSamePage(x.pages[0], np), "the transaction file contains the page SQLite wrote (journal mode tracked after a replicated mode change)")
 	rt.Reach("c02.modechange")
 }
+
+// VerifC02JournalBlocks: rollback-journal commits on databases whose size
+// straddles the 256-page checksum blocks (shrink, growth and plain updates),
+// checked against the from-scratch checksum.
+func VerifC02JournalBlocks() {
+	ctx := context.Background()
+	w := verifNewStore(true)
+	shape := rt.Choose("shape", 4+2*rt.Tier())
+	n0 := []int{258, 257, 256, 300, 513, 600}[shape]
+	commit := n0
+	switch rt.Choose("resize", 4) {
+	case 1:
+		commit = n0 - 1
+	case 2:
+		commit = n0 + 1
+	case 3:
+		commit = []int{257, 256, 255, 257, 300, 300}[shape] // a shrink that leaves the last block untouched / crosses a block
+		if commit == n0 {
+			rt.Assume(false)
+		}
+	}
+	img0 := verifImageBig("img0", n0, false, n0)
+	w.verifOpenDB(img0, 41)
+	db := w.db
+	pos0 := db.Pos()
+	rt.Check(pos0.PostApplyChecksum == verifSpecChecksum(img0), "C04: checksum after Open equals the from-scratch checksum")
+
+	jf, err := db.CreateJournal()
+	rt.Check(err == nil, "CreateJournal")
+	rt.Check(db.WriteJournalAt(ctx, jf, verifJournalHeader(0, rt.U32("nonce"), uint32(n0)), 0, 1) == nil, "journal header")
+	dbf, _ := db.OpenDatabase(ctx)
+	cur := make([][]byte, commit)
+	copy(cur, img0)
+	p1 := rt.Bytes("new", verifP)
+	verifHeaderPage(p1, uint32(commit), false)
+	rt.Check(db.WriteDatabaseAt(ctx, dbf, p1, 0, 1) == nil, "page 1 write")
+	cur[0] = p1
+	written := []int{1}
+	for p := n0 + 1; p <= commit; p++ { // growth: new pages are written
+		d := rt.Bytes("grown", verifP)
+		rt.Check(db.WriteDatabaseAt(ctx, dbf, d, int64(p-1)*verifP, 1) == nil, "new page write")
+		cur[p-1] = d
+		written = append(written, p)
+	}
+	if rt.Choose("touch.last", 2) == 1 && commit <= n0 && commit > 1 { // optionally also rewrite the new last page
+		d := rt.Bytes("last", verifP)
+		rt.Check(db.WriteDatabaseAt(ctx, dbf, d, int64(commit-1)*verifP, 1) == nil, "last page write")
+		cur[commit-1] = d
+		written = append(written, commit)
+	}
+	rt.Check(db.RemoveJournal(ctx) == nil, "commit")
+	rt.Check(len(w.exits) == 0, "no fatal exit")
+	if commit < n0 {
+		rt.Check(db.TruncateDatabase(ctx, int64(commit)*verifP) == nil, "truncate to the committed size")
+	}
+	pos1 := db.Pos()
+	rt.Check(pos1.TXID == 42, "position advances by one")
+	x, derr := verifDecodeLTX(db.LTXPath(42, 42))
+	rt.Check(derr == nil && x.hdr.Commit == uint32(commit) && x.hdr.PreApplyChecksum == pos0.PostApplyChecksum, "transaction file header")
+	rt.Check(len(x.pgnos) == len(written), "page set = written pages")
+	for i, p := range written {
+		if i < len(x.pgnos) {
+			rt.Check(x.pgnos[i] == uint32(p) && verifSamePage(x.pages[i], cur[p-1]), "page set in order with the written bytes")
+		}
+	}
+	spec := verifSpecChecksum(cur)
+	rt.Check(x.trailer.PostApplyChecksum == spec, "C04: post-apply checksum equals the from-scratch checksum across checksum-block boundaries")
+	rt.Check(pos1.PostApplyChecksum == spec, "C04: reported checksum equals the from-scratch checksum across checksum-block boundaries")
+	verifC01CheckImage(w, cur, "image after the commit")
+	rt.Reach("c02.blocks")
+}
